@@ -80,7 +80,17 @@ def make_tree(rng, fam):
     return ('fn', 'exp', ('fn', 'sin', ('mul', ('c', min(abs(a), 1.0)), x))), None
 
 
+# witnesses of listed findings that the quick tier does not always draw
+KNOWN_WITNESSES = [
+    dict(family='cos', tree=['fn', 'cos', ['mul', ['c', -0.641], ['x']]], singularity=None, z0=[0.077, 0.0], n=15, r=None,
+         step_ratio=None, num_extrap=None, via='Taylor'),        # radius-search-exhausts-iterations
+]
+
+
 def cases(rng, tier, shard, nshards):
+    if shard == 0:
+        for c in KNOWN_WITNESSES:
+            yield dict(c)
     for i in range(BUDGET[tier] // nshards):
         fam = FAMILIES[(i + shard) % len(FAMILIES)]
         u = rng.random()
